@@ -168,7 +168,8 @@ class V2State:
     def __init__(self, long_amount, short_amount, virt_long, virt_short, pool_value, supply, impact_pool, long_price, short_price):
         F = Fraction
         self.long_amount, self.short_amount = F(long_amount), F(short_amount)
-        self.virt_long, self.virt_short = F(virt_long), F(virt_short)
+        # None: the market has no virtual inventory (empty cells in the data)
+        self.virt_long, self.virt_short = (None, None) if virt_long is None or virt_short is None else (F(virt_long), F(virt_short))
         self.pool_value, self.supply, self.impact_pool = F(pool_value), F(supply), F(impact_pool)
         self.long_price, self.short_price = F(long_price), F(short_price)
 
@@ -190,6 +191,8 @@ def _impact(cfg: V2Config, a0, b0, a1, b1):
 def _deposit_impacts(cfg: V2Config, st: V2State, long_usd, short_usd):
     a0, b0 = st.long_amount * st.long_price, st.short_amount * st.short_price
     real, cross = _impact(cfg, a0, b0, a0 + long_usd, b0 + short_usd)
+    if st.virt_long is None:  # no virtual inventory: the pool's own balances decide alone
+        return (real, cross), (real, cross), max(a0 + long_usd, b0 + short_usd)
     va, vb = st.virt_long * st.long_price, st.virt_short * st.short_price
     virt, vcross = _impact(cfg, va, vb, va + long_usd, vb + short_usd)
     scale = max(a0 + long_usd, b0 + short_usd, va + long_usd, vb + short_usd)
